@@ -70,6 +70,12 @@ package exit
 //@ requires domainAllowed ==> (exists k in 0..len(h.cfg.AllowedDomains): patMatch(h.cfg.AllowedDomains[k], destAddr))
 //@ after call (*Handler).isAllowed let okByRoute = $ret && (exists j in 0..len(h.cfg.AllowedRoutes): ipInNet(h.cfg.AllowedRoutes[j], ip))
 //@ at call DialContext assert (domainAllowed && old(exists k in 0..len(h.cfg.AllowedDomains): patMatch(h.cfg.AllowedDomains[k], destAddr))) || okByRoute
+//@ after call String let c19ipStr = $ret
+//@ at[C19] call String assert $0 == ip
+//@ at[C19] call fmt.Sprintf assert $0 == "%s:%d" && len($1) == 2 && ifaceval($1[0], string) == c19ipStr && ifaceval($1[1], uint16) == destPort
+//@ after call fmt.Sprintf let c19addr = $ret
+//@ at[C19] call DialContext assert $2 == "tcp" && $3 == c19addr
+//@ note C19: the string that is dialled is built from the address that was checked - the resolved ip's own text form and the requested port - and from nothing else (in particular not from the requested name, which a second resolution could map elsewhere)
 //@ note C03 (responder, TCP stream): one fresh pair; secret = ECDH(own private, initiator's public) with nil error; key derived for (request id received, initiator public, own public, responder); that key is the connection's key and the ACK carries the own public key and the same request id
 //@ after call crypto.GenerateEphemeralKeypair let c03priv = $ret0
 //@ after call crypto.GenerateEphemeralKeypair let c03pub = $ret1
